@@ -73,7 +73,7 @@ def export(name, what, n, prof="core", sig="sig6", timeout=1800):
 
 def ctx2(ctx, name, count):
     """`count` seeded picks of (outer context, inner context, filler); TLC (MC_Export, What=ctx2) builds the patterns from Gram.tla"""
-    ncx, nfill = 44, 62
+    ncx, nfill = 44, 64
     picks = [dict(i=ctx.rng.randint(1, ncx), j=ctx.rng.randint(1, ncx), f=ctx.rng.randint(1, nfill)) for _ in range(count)]
     d = workdir(ctx.prop)
     pf = os.path.join(d, name + ".picks.ndjson")
